@@ -7,6 +7,7 @@ import subprocess
 import sys
 
 from core import fseq, fseqs, fcells, fbool, pseq, pseqs, pcells, guarded
+import used
 
 PROP = "C08"
 RULE = ("objects are single tokens (P perm, M/B/V/C mesh-type pattern of that class, S Basis, T MeshBasis); "
@@ -315,14 +316,90 @@ def _fresh(line):
     return p.stdout.decode().strip()
 
 
+# ----------------------------------------------------------------------------- used objects
+_CHEAP = ("cmp", "eqval", "eqlaws", "ordlaws", "trans", "sort", "sortok")
+
+
+def warm_value(o):
+    """use a value object before it is compared / hashed: hash it, compare it, print it, search with it
+    (fills whatever an object memoises); equal objects must stay equal with equal hashes whether or not
+    one of them has been used"""
+    if isinstance(o, Perm):
+        used.warm_perm(o, 1)
+        used.quiet(o.inverse)
+        used.quiet(lambda: o < Perm((0,)))
+        used.quiet(repr, o)
+    elif isinstance(o, MeshPatt):
+        used.warm_mesh(o, 1)
+        used.quiet(o.reverse)
+        used.quiet(lambda: sorted([o, MeshPatt(Perm((0,)), [(0, 0)]), o]))
+        used.quiet(lambda: o <= o)
+        used.quiet(repr, o)
+    else:       # Basis / MeshBasis tuples
+        used.quiet(hash, o)
+        used.quiet(lambda: o == tuple(o))
+        used.quiet(lambda: [hash(x) for x in o])
+        used.quiet(lambda: sorted(o))
+        used.quiet(lambda: o < o)
+    return o
+
+
+def _ghost(tok):
+    """before the operands of a hash line are built, a DIFFERENT nearby object of the same kind and size is built,
+    hashed and dropped: a memo keyed by object identity would hand its hash to whatever is allocated at the freed
+    address next (equal objects must hash equally whatever was allocated, and died, before them)"""
+    try:
+        o = build(tok)
+        if isinstance(o, Perm):
+            g = Perm(tuple(o)[::-1])
+        elif isinstance(o, MeshPatt):
+            g = MeshPatt(o.pattern, o.shading ^ {(0, 0)})
+        else:
+            g = tuple.__new__(type(o), tuple(o)[::-1])
+        # a dozen of them, alive together: the blocks they free are handed out again to the next objects of
+        # that size, some of them to the operands
+        gs = [g] + [g.__class__(*a) for a in [(g.pattern, g.shading)] * 11] if isinstance(g, MeshPatt) else \
+             [g] + [tuple.__new__(type(g), tuple(g)) for _ in range(11)]
+        del o, g
+        for x in gs:
+            hash(x)
+        del gs, x
+    except Exception:  # pylint: disable=broad-except
+        pass
+
+
+def ubuild(i, tok):
+    """the i-th operand of a line: operand 0 is a *used* object, the others are fresh"""
+    return used.obj((i, tok), lambda: build(tok), warm_value if i == 0 and _HEAVY[0] else None)
+
+
+_HEAVY = [False]
+
+
 def impl(op, a):
     if op == "fresh":
         return _fresh(" ".join(a))
     if not supported(a):
         return "unsupported"
+    used.begin()
+    # a deterministic half of the lines (and every line with a big pattern) gets the used-object treatment
+    _HEAVY[0] = used.sel(op, a, 2) or max([len(t) for t in a] + [0]) > 120
+    if not _HEAVY[0]:
+        return _impl(op, a)
+    if op not in _CHEAP and a:
+        _ghost(a[0])
+    r1 = _impl(op, a)
+    # the same line once more on the same (now used) objects; the allocation-heavy hash ops on a quarter of them
+    if op not in _CHEAP and not used.sel(op, a, 8):
+        return r1
+    used.T.rewind()
+    r2 = _impl(op, a)
+    return r1 if r1 == r2 else used.unstable(r1, r2)
 
+
+def _impl(op, a):
     def objs():
-        return [build(t) for t in a]
+        return [ubuild(i, t) for i, t in enumerate(a)]
     if op == "cmp":
         return guarded(lambda: "|".join(_six(*objs())))
     if op == "eqval":
@@ -624,6 +701,23 @@ def run(ctx):
     ctx.compare("fresh-interpreter", fl)
     ctx.compare("malformed", ["cmp M0/5.5 M0/_", "cmp B0/3/_ M0/_", "cmp V0,1/4 V0,1/1", "cmp C_/1 C_/0", "eqval M0/0.2 P0",
                               "cmp P0 S0", "cmp S0 M0/_", "hashstable M_/1.1", "sort M0/2.0"])
+    # big patterns (length 5 and 6, almost completely shaded), each line an equal pair built separately: equal
+    # objects hash equally whatever died at their address before (see _ghost)
+    lines = []
+    for n in (5, 6):
+        full = [(x, y) for x in range(n + 1) for y in range(n + 1)]
+        for j in range(12 if ctx.tier == "quick" else 60):
+            p = list(range(n))
+            rng.shuffle(p)
+            drop = set(rng.sample(full, rng.randrange(0, 4)))
+            tok = "M%s/%s" % (fseq(p), fcells([c for c in full if c not in drop]))
+            lines.append("%s %s %s" % (("hashco", "lookup", "eqval")[j % 3], tok, tok))
+            if j % 4 == 0:
+                lines.append("hashstable " + tok)
+        allidx = fseq(range(n + 1))
+        lines.append("hashco B%s/%s/_ M%s/%s" % (fseq(range(n)), allidx, fseq(range(n)), fcells(full)))
+        lines.append("lookup M%s/%s C%s/%s" % (fseq(range(n)), fcells(full), fseq(range(n)), allidx))
+    ctx.compare("hash-big-patterns", lines)
 
 
 if __name__ == "__main__":
